@@ -75,6 +75,9 @@ type seParams struct {
 	Nodes  int    `json:"nodes"`
 	Cols   int    `json:"cols"`
 	Script []seOp `json:"script"`
+	// Bus: commits are delivered by publishing event.Merge on the receiver's bus (the path the network
+	// layer uses: message handler, merge queue, retry loop) instead of the synchronous hook H1
+	Bus bool `json:"bus,omitempty"`
 }
 
 var seColNames = []string{"User", "Book", "Note"}
@@ -596,6 +599,27 @@ func seAnchors() []core.Case {
 		{Kind: "deliver", Node: 0, Src: 1, Doc: 1},
 		{Kind: "deliver", Node: 1, Src: 0, Doc: 1},
 	}})
+	// two nodes, commits delivered through the event bus (the database's own message handler): the
+	// receiver merges a commit BEFORE both nodes are patched and commits that write the added field
+	// AFTERWARDS - the handler must resolve the collection as it is at the time of each merge
+	add(seParams{Index: false, Nodes: 2, Cols: 1, Bus: true, Script: []seOp{
+		{Kind: "create", Node: 0, Doc: 0, W: map[string]any{"name": "a"}},
+		{Kind: "deliver", Node: 1, Src: 0, Doc: 0},
+		{Kind: "patch", Node: 0, Field: email, SetDefault: true},
+		{Kind: "patch", Node: 1, Field: email, SetDefault: true},
+		{Kind: "update", Node: 0, Doc: 0, W: map[string]any{"email": "a@x"}},
+		{Kind: "create", Node: 0, Doc: 1, W: map[string]any{"name": "b", "email": "b@x"}},
+		{Kind: "deliver", Node: 1, Src: 0, Doc: 0},
+		{Kind: "deliver", Node: 1, Src: 0, Doc: 1},
+		{Kind: "update", Node: 1, Doc: 0, W: map[string]any{"pts": 1}},
+		{Kind: "deliver", Node: 0, Src: 1, Doc: 0},
+		{Kind: "switch", Node: 1, Ver: 0},
+		{Kind: "update", Node: 0, Doc: 1, W: map[string]any{"tag": "t"}},
+		{Kind: "deliver", Node: 1, Src: 0, Doc: 1},
+		{Kind: "switch", Node: 1, Ver: 1},
+		{Kind: "update", Node: 0, Doc: 1, W: map[string]any{"email": "b2@x"}},
+		{Kind: "deliver", Node: 1, Src: 0, Doc: 1},
+	}})
 	rating := seField{Name: "rating", Kind: "Int"}
 	isbn := seField{Name: "isbn", Kind: "String"}
 	stars := seField{Name: "stars", Kind: "Int"}
@@ -680,6 +704,7 @@ func seCases(seed uint64, tier string) []core.Case {
 			p = seGenEvolve(rng)
 		} else {
 			p = seGenTwoNode(rng)
+			p.Bus = i%2 == 0
 		}
 		cs = append(cs, core.MkCase(seKindOf(p), rng.Uint64(), p))
 	}
@@ -710,6 +735,7 @@ type seNode struct {
 	tainted map[string]bool         // "doc/field": merged while the active version did not know the field
 	foreign map[int]map[string]bool // doc -> schema version ids carried by merged commits
 	stale   map[int]bool            // commit list could not be read at the previous step
+	bus     *core.BusMerger         // set when commits are delivered through the event bus
 }
 
 type seRun struct {
@@ -793,6 +819,10 @@ func runSchemaEvolution(ctx context.Context, c core.Case, r *core.Rec) {
 		for c := 0; c < p.Cols; c++ {
 			sn.vers = append(sn.vers, nil)
 			sn.active = append(sn.active, 0)
+		}
+		if p.Bus {
+			sn.bus = core.NewBusMerger(n)
+			defer sn.bus.Close()
 		}
 		t.nodes = append(t.nodes, sn)
 		if !t.refreshVersions(i, "setup", -1) {
@@ -1555,7 +1585,13 @@ func (t *seRun) deliver(i int, op seOp) {
 		}
 		walk(h)
 		core.CopyClosure(t.ctx, src.n, dst.n, core.ParseCid(h))
-		err := dst.n.Merge(t.ctx, doc.ID, core.ParseCid(h), t.colIDs[op.Col])
+		var err error
+		if dst.bus != nil {
+			err = dst.bus.Merge(t.ctx, doc.ID, core.ParseCid(h), t.colIDs[op.Col], 20*time.Second)
+			t.r.Count("merges_through_the_event_bus", 1)
+		} else {
+			err = dst.n.Merge(t.ctx, doc.ID, core.ParseCid(h), t.colIDs[op.Col])
+		}
 		t.r.Count("evaluations", 1)
 		t.r.Count("merges", 1)
 		var uk []string
@@ -1690,13 +1726,13 @@ func init() {
 		ID: "C19", Level: "exploration",
 		Rule: "6 anchor histories + generated scripted histories. evolve: one node, 1-3 collections, 3-7 documents, up to 4 PatchSchema calls, each adding one field to one collection or 2-4 fields to two or three collections at once (String, Int, Float, Boolean, DateTime, JSON, Blob, [Int!], [String], " +
 			"pncounter Int/Float, pcounter; setAsDefaultVersion true/false; also on top of a non-latest version), SetActiveSchemaVersion back and forth incl. to the root, creates/updates/deletes under whatever version is active, " +
-			"optional secondary index on an old field, final tour over all versions. two-node: 1-3 collections, nodes patched at different times / differently / one only (single- and multi-collection patches), version switches, writes, exchange by block-closure copy + VerifMerge. " +
+			"optional secondary index on an old field, final tour over all versions. two-node: 1-3 collections, nodes patched at different times / differently / one only (single- and multi-collection patches), version switches, writes, exchange by block-closure copy + merge (half of the two-node histories through hook H1, half by publishing event.Merge on the receiver's bus and awaiting MergeComplete: the database's own message handler). " +
 			"non-trivial = >=1 write under a non-latest active version and >=1 switch after it; distinct by (index, collections, sequence of patches/switches/write positions).",
 		Cases: seCases,
 		Run:   runSchemaEvolution,
 		Floors: []string{"dumps", "patches", "patches_not_default", "switches", "switches_to_root", "writes_under_nonlatest_version", "before_after_comparisons", "commit_lists_compared", "two_node_histories", "merge_with_field_unknown_to_receiver", "merges_between_different_versions", "agreement_checks_between_different_versions", "common_fields_compared", "index_queries", "nontrivial_histories",
 			"patches_touching_several_collections", "multi_patches_set_default", "multi_patches_not_default", "multi_patches_on_nonlatest_version", "multi_patches_three_collections",
-			"multi_patches_two_fields_in_one_collection", "multi_patches_two_node", "multi_patches_with_documents_in_every_patched_collection", "writes_after_multi_patch_made_default", "agreement_checks_after_multi_patch"},
+			"multi_patches_two_fields_in_one_collection", "multi_patches_two_node", "multi_patches_with_documents_in_every_patched_collection", "writes_after_multi_patch_made_default", "agreement_checks_after_multi_patch", "merges_through_the_event_bus"},
 		CaseTimeout: 10 * time.Minute,
 		Assumptions: []string{
 			"PatchSchema cannot declare a default value for an added field (SchemaFieldDescription has Name/Kind/Typ only, unknown properties are rejected): added fields are expected to read null for documents that never wrote them; a default declared in the SDL (tag) is modelled from the client document",
